@@ -165,6 +165,11 @@ func (pe *predEval) eval(p *packages.Package, fd *ast.FuncDecl) *predResult {
 						if cd := pe.S.funcDecl[callee]; cd != nil {
 							sub := pe.eval(pe.S.declPkg[cd], cd)
 							if sub.problem != "" {
+								if s2 := pe.evalSSA(pe.S.declPkg[cd], cd, 0); s2.problem == "" {
+									sub = s2
+								}
+							}
+							if sub.problem != "" {
 								res.problem = "delegates to " + callee.Name() + ": " + sub.problem
 								return res
 							}
@@ -330,6 +335,12 @@ func checkC13(res *Result) {
 				predOfType[o] = struct{ typ, kind string }{g.Name, k}
 			}
 			r := pe.eval(g.Pkg, fd)
+			if r.problem != "" {
+				// the statement form is not one of the listed ones: read the denotation off the SSA form
+				if r2 := pe.evalSSA(g.Pkg, fd, 0); r2.problem == "" {
+					r = r2
+				}
+			}
 			if r.problem != "" {
 				res.undecided(ruleOf[k], g.Name, S.pos(fd), k+" of "+g.Name+" has a computable denotation", r.problem)
 				continue
